@@ -1,0 +1,52 @@
+//! Verification hook. Compiled only with `--cfg agdb_verif`; never part of a normal build.
+//!
+//! `exec_event` is called by `ClusterStorage` when a log entry is committed and, inside the
+//! task that executes it, right before and right after the execution. When the environment
+//! variable `AGDB_VERIF_EXEC_LOG` names a file the event is appended to it (one line
+//! `<phase> <index>`); when `AGDB_VERIF_EXEC_DELAY_MS` is set the "start" phase first sleeps
+//! `delay * (3 - index % 4)` milliseconds (earlier entries wait longer), which perturbs the
+//! order in which concurrently spawned executions get to run. A delay can only slow an
+//! executor down; it cannot make an executor that runs the entries in order run them out of order.
+
+use std::io::Write;
+use std::sync::Mutex;
+use std::sync::OnceLock;
+
+static LOG: OnceLock<Option<Mutex<std::fs::File>>> = OnceLock::new();
+
+fn log_file() -> &'static Option<Mutex<std::fs::File>> {
+    LOG.get_or_init(|| {
+        std::env::var("AGDB_VERIF_EXEC_LOG").ok().and_then(|path| {
+            std::fs::OpenOptions::new()
+                .create(true)
+                .append(true)
+                .open(path)
+                .ok()
+                .map(Mutex::new)
+        })
+    })
+}
+
+fn write_event(phase: &str, index: u64) {
+    if let Some(file) = log_file()
+        && let Ok(mut file) = file.lock()
+    {
+        let _ = writeln!(file, "{phase} {index}");
+    }
+}
+
+pub(crate) fn commit_event(index: u64) {
+    write_event("commit", index);
+}
+
+pub(crate) async fn exec_event(phase: &str, index: u64) {
+    if phase == "start"
+        && let Some(delay) = std::env::var("AGDB_VERIF_EXEC_DELAY_MS")
+            .ok()
+            .and_then(|d| d.parse::<u64>().ok())
+    {
+        tokio::time::sleep(std::time::Duration::from_millis(delay * (3 - index % 4))).await;
+    }
+
+    write_event(phase, index);
+}
